@@ -46,11 +46,11 @@ def install(reg):
                             invariants=CHUNKED_INV))
     loop_inv = [(n, t.replace("self.", "self.")) for n, t in CHUNKED_INV] + [
         ("s-bounded", "len(s) <= orig_size or (self.error is not None and self.trailer == b'' and len(s) <= orig_size + 1)"),
-        ("trailer-untouched-while-input-left", "implies(len(s) > 0, self.trailer == old(self.trailer))"),
+        ("C02-trailer-untouched-while-input-left", "implies(len(s) > 0, self.trailer == old(self.trailer))"),
         ("orig-size", "orig_size == len(old(s))"),
-        ("trailer-phase-carry", "implies(old(self.all_chunks_received) and old(self.error) is None and len(s) == 0 and len(old(s)) > 0 and not self.completed,"
+        ("C02-trailer-phase-carry", "implies(old(self.all_chunks_received) and old(self.error) is None and len(s) == 0 and len(old(s)) > 0 and not self.completed,"
                                 " self.trailer == old(self.trailer) + old(s) and self.all_chunks_received and self.error is None)"),
-        ("trailer-phase-call-sees-the-whole-input", "implies(old(self.all_chunks_received) and old(self.error) is None and len(s) > 0,"
+        ("C02-trailer-phase-call-sees-the-whole-input", "implies(old(self.all_chunks_received) and old(self.error) is None and len(s) > 0,"
                                                     " s == old(s) and self.all_chunks_received and self.error is None)"),
         ("not-completed-in-loop", "not self.completed"),
         ("view-extends", "self.buf.view.startswith(old(self.buf.view))"),
